@@ -114,6 +114,9 @@ class Interp:
                 if e["lid"] in env:
                     return env[e["lid"]]
                 raise Uninterpretable("unbound local " + e.get("name", "?"))
+            c = getattr(self.facts, "consts", {}).get(e.get("rid") or e.get("id")) or getattr(self.facts, "consts_by_path", {}).get(str(e.get("path")))
+            if c is not None:
+                return self.ev(c["body"], {})        # a named constant: its initialiser
             raise Uninterpretable("path " + str(e.get("path")))
         if k == "Cast":
             v = self.ev(e["a"], env)
